@@ -18,6 +18,7 @@ func TestMain(m *testing.M) { vstat.Main(m) }
 type genOpts struct {
 	clock    bool // advance / wait / park ops and expiries the clock will cross
 	pastExp  bool // records written already expired (in-memory only)
+	bornExpired bool // no clock ops, but some writes carry an expiry that is already in the past (in-memory only)
 	park     bool
 	maxLen   int
 	allKinds []string
@@ -30,6 +31,9 @@ func genSeq(t *rapid.T, o genOpts) SCase {
 	elapsed := time.Duration(0)
 	var crossed []int
 	exps := []int{ExpNone, Exp1h, Exp100h}
+	if o.bornExpired {
+		exps = []int{ExpNone, Exp1h, ExpPast, ExpPast}
+	}
 	if o.clock {
 		exps = []int{ExpNone, Exp1h, Exp1h, Exp3h, Exp3h, Exp100h}
 		if o.pastExp {
@@ -295,6 +299,26 @@ func TestReplay(t *testing.T) {
 	if err != nil {
 		t.Fatalf("cannot load %s: %v", p, err)
 	}
+	if env.Test == "TestC02Hammer" {
+		var c HammerCase
+		if _, err := vstat.LoadReplay(p, &c); err != nil {
+			t.Fatalf("cannot decode %s: %v", p, err)
+		}
+		for i := 0; i < 20; i++ {
+			vstat.For("C02").Report(t, "TestReplay", c, runHammer(c, storageFor(t, c.Backend)))
+		}
+		return
+	}
+	if env.Test == "TestC07Hammer" {
+		var c WaitHammerCase
+		if _, err := vstat.LoadReplay(p, &c); err != nil {
+			t.Fatalf("cannot decode %s: %v", p, err)
+		}
+		for i := 0; i < 20; i++ {
+			vstat.For("C07").Report(t, "TestReplay", c, runWaitHammer(c, InmemDriver().St))
+		}
+		return
+	}
 	if env.Property == "C07" {
 		replayC07(t, env, p)
 		return
@@ -312,6 +336,10 @@ func replaySeq(t *testing.T, env *vstat.Envelope, p string) {
 		t.Fatalf("cannot decode %s: %v", p, err)
 	}
 	switch {
+	case env.Property == "C03" && env.Test == "TestC03InmemExpired":
+		info, v := RunSeq(c, []*Driver{InmemDriver()})
+		vstat.For("C03").Report(t, "TestReplay", c, v)
+		recordC03(c, info)
 	case env.Property == "C03":
 		info, v := RunSeq(c, c03Drivers(t))
 		vstat.For("C03").Report(t, "TestReplay", c, v)
